@@ -20,6 +20,11 @@ pub enum Op {
     Rankwidth,
     Score,
     CloneContinue,
+    /// clone the tree, put one of the two copies on a shelf and continue on the other
+    Fork,
+    /// query (width, score) of a shelved copy on the copy itself: nothing done to the other copy
+    /// since the fork may have reached it
+    QueryShelved,
 }
 
 #[derive(Clone, Debug, Serialize, Deserialize, PartialEq)]
@@ -48,6 +53,9 @@ pub struct Sc {
     pub edges: Vec<(usize, usize)>,
     pub hash_backend: bool,
     pub mode: Mode,
+    /// history runs: the checker is passive (see `Checker::passive`)
+    #[serde(default)]
+    pub passive: bool,
 }
 
 pub struct C18;
@@ -227,6 +235,11 @@ fn tree_digest(tree: &DecompTree) -> u64 {
 struct Checker<'a> {
     sc: &'a Sc,
     out: &'a mut RunOut,
+    /// the harness keeps its hands off the tree: between the scenario's own queries only the
+    /// structure is inspected (no clone, no rank computation by quizx on the harness's behalf), and a
+    /// query is judged against the brute-force value alone. Clones made by the checker would
+    /// otherwise fill or copy caches at every step and mask defects that need an *uncomputed* cache.
+    passive: bool,
 }
 
 impl Checker<'_> {
@@ -265,6 +278,27 @@ impl Checker<'_> {
             Caught::Budget => {}
         }
         let (bw, bs) = brute(tree, self.sc, &edges);
+        if self.passive {
+            if !query_live {
+                return;
+            }
+            match catch(|| (tree.rankwidth(g), tree.rankwidth_score(g))) {
+                Caught::Ok(c) => {
+                    self.out.ev(mix(c.0 as u64, c.1 as u64));
+                    if c != (bw, bs) {
+                        self.out.violations.push(
+                            Violation::new("width_wrong", format!("after {stage}: (width,score)={:?} but brute-force cut ranks give {:?}", c, (bw, bs)))
+                                .with("stage", stage_kind(stage)),
+                        );
+                    }
+                }
+                Caught::Panic(m) => self.out.violations.push(
+                    Violation::new("panic", format!("rankwidth query after {stage}: {m}")).with("where", "rankwidth").with("msg", norm_msg(&m)),
+                ),
+                Caught::Budget => {}
+            }
+            return;
+        }
         // cached answer (either live or on a clone that inherits the cache)
         let cached = if query_live {
             catch(|| (tree.rankwidth(g), tree.rankwidth_score(g)))
@@ -359,7 +393,10 @@ impl C18 {
                     }
                 };
                 out.steps += 1;
-                let mut ck = Checker { sc, out };
+                let mut ck = Checker { sc, out, passive: sc.passive };
+                if sc.passive {
+                    ck.out.probe("passive_checker");
+                }
                 ck.check(&mut tree, &g, "random_decomp", false);
                 if !ck.out.violations.is_empty() {
                     return exec.values();
@@ -368,6 +405,8 @@ impl C18 {
                 let mut structural_moves = 0;
                 let mut query_between = false;
                 let mut last_was_query_after_move = false;
+                // copies set aside by Fork, each with the digest of its structure at that moment
+                let mut shelf: Vec<(DecompTree, u64)> = vec![];
                 for (k, op) in ops.iter().enumerate() {
                     let stage = format!("{:?}#{}", op, k);
                     let before = tree_digest(&tree);
@@ -388,6 +427,21 @@ impl C18 {
                                 let c = t.clone();
                                 *t = c;
                             }),
+                            Op::Fork => {
+                                let keep_original = k % 2 == 0;
+                                let sh = &mut shelf;
+                                catch(move || {
+                                    let c = t.clone();
+                                    // even steps shelve the original and go on with the clone, odd steps the reverse
+                                    let shelved = if keep_original { std::mem::replace(t, c) } else { c };
+                                    let dg = tree_digest(&shelved);
+                                    if sh.len() >= 3 {
+                                        sh.remove(0);
+                                    }
+                                    sh.push((shelved, dg));
+                                })
+                            }
+                            Op::QueryShelved => Caught::Ok(()),
                         }
                     };
                     ck.out.steps += 1;
@@ -436,6 +490,27 @@ impl C18 {
                         Op::CloneContinue => {
                             ck.out.probe("clone_continue");
                         }
+                        Op::Fork => {
+                            ck.out.probe("fork");
+                        }
+                        Op::QueryShelved => {
+                            if !shelf.is_empty() {
+                                let i = k % shelf.len();
+                                let (st, dg) = &mut shelf[i];
+                                ck.out.probe("shelved_copy_queried");
+                                if tree_digest(st) != *dg {
+                                    ck.out.violations.push(
+                                        Violation::new("shelved_copy_changed", format!("{stage}: the structure of a copy set aside by Fork changed although only the other copy was operated on"))
+                                            .with("stage", stage_kind(&stage)),
+                                    );
+                                    return exec.values();
+                                }
+                                ck.check(st, &g, &format!("{stage}.shelved"), true);
+                                if !ck.out.violations.is_empty() {
+                                    return exec.values();
+                                }
+                            }
+                        }
                     }
                     let live = matches!(op, Op::Rankwidth | Op::Score);
                     ck.check(&mut tree, &g, &stage, live);
@@ -443,8 +518,17 @@ impl C18 {
                         return exec.values();
                     }
                 }
-                // final query on the live tree
+                // final query on the live tree and on every shelved copy
                 ck.check(&mut tree, &g, "final", true);
+                for (i, (st, dg)) in shelf.iter_mut().enumerate() {
+                    if ck.out.violations.is_empty() {
+                        if tree_digest(st) != *dg {
+                            ck.out.violations.push(Violation::new("shelved_copy_changed", format!("final: the structure of shelved copy {i} changed")).with("stage", "final"));
+                        } else {
+                            ck.check(st, &g, "final.shelved", true);
+                        }
+                    }
+                }
                 ck.out.nontrivial = n >= 4 && structural_moves >= 3 && kinds.len() >= 2 && query_between;
             }
             Mode::Annealer { iterations, init_temp, min_temp, cooling, adaptive, given_init, warm } => {
@@ -546,7 +630,7 @@ impl C18 {
                         if fw < iw {
                             out.probe("annealer_improved_width");
                         }
-                        let mut ck = Checker { sc, out };
+                        let mut ck = Checker { sc, out, passive: false };
                         ck.check(&mut fin, g, what, true);
                         ck.check(&mut init, g, "init", true);
                         out.nontrivial = n >= 4 && !sc.edges.is_empty();
@@ -648,13 +732,27 @@ impl Property for C18 {
                 _ => d.range("n", 6, 14) as usize,
             }
         };
-        let holes = d.coin("holes", 1, 3);
+        // vertex numbering: dense; small holes; a numbering that starts far from 0; wide strides
+        // (ids beyond 64 / 128 / 1000 on graphs of a dozen vertices: machine-word and table-size
+        // boundaries are about the ids, not about the number of vertices)
+        let idmode = match d.choose("idmode", 9) {
+            0..=3 => 0,
+            4 | 5 => 1,
+            6 => 2,
+            7 => 3,
+            _ => 4,
+        };
         let mut ids = vec![];
-        let mut next = 0usize;
+        let mut next = match idmode {
+            2 | 4 => 40 + d.choose("idstart", 200),
+            _ => 0usize,
+        };
         for _ in 0..n {
-            if holes {
-                next += d.choose("hole", 3);
-            }
+            next += match idmode {
+                1 | 2 => d.choose("hole", 3),
+                3 | 4 => d.choose("stride", 70),
+                _ => 0,
+            };
             ids.push(next);
             next += 1;
         }
@@ -675,7 +773,7 @@ impl Property for C18 {
             "history" => {
                 let len = 1 + d.choose("len", 60);
                 // per-run operation mix (swarm style)
-                let w: Vec<usize> = (0..6).map(|_| d.choose("w", 5)).collect();
+                let w: Vec<usize> = (0..8).map(|_| d.choose("w", 5)).collect();
                 let tot: usize = w.iter().sum::<usize>().max(1);
                 let kinds = [
                     Op::SwapLeaves,
@@ -684,17 +782,19 @@ impl Property for C18 {
                     Op::Rankwidth,
                     Op::Score,
                     Op::CloneContinue,
+                    Op::Fork,
+                    Op::QueryShelved,
                 ];
                 let ops = (0..len)
                     .map(|_| {
                         let mut x = d.choose("op", tot);
                         let mut k = 0;
-                        while k < 5 && x >= w[k] {
+                        while k < 7 && x >= w[k] {
                             x -= w[k];
                             k += 1;
                         }
                         if w.iter().sum::<usize>() == 0 {
-                            kinds[d.choose("op2", 6)]
+                            kinds[d.choose("op2", 8)]
                         } else {
                             kinds[k]
                         }
@@ -713,7 +813,8 @@ impl Property for C18 {
             },
             _ => Mode::RankDecomp,
         };
-        Sc { ids, edges, hash_backend: d.coin("backend", 1, 2), mode }
+        let passive = sub == "history" && d.coin("passive", 1, 3);
+        Sc { ids, edges, hash_backend: d.coin("backend", 1, 2), mode, passive }
     }
 
     fn execute(&self, sc: &Sc, _sub: &str, exec: Decider, _env: &Env) -> RunOut {
